@@ -118,6 +118,28 @@ theorem commitPlainW_ve (s : State) (kw : Kw) (w1 : World) (h : commitPlainW s k
   split at h <;> try (cases h; done)
   split at h <;> cases h
 
+theorem pyKwPop_snd (kw : Kw) (k : Str) (d : Option PyAny) :
+    (pyKwPop kw k d).2 = kw.filter (fun e => !(e.1 == k)) := by
+  unfold pyKwPop
+  cases h : kw.find? (fun e => e.1 == k) with
+  | some e => rfl
+  | none =>
+    simp only
+    rw [List.find?_eq_none] at h
+    symm
+    rw [List.filter_eq_self]
+    intro a ha
+    simpa using h a ha
+
+theorem restKw_eq (kw : Kw) : restKw kw = kw.filter (fun e => !(e.1 == KW_STUB) && !(e.1 == KW_EXTS)) := by
+  simp only [restKw, pyKwPop_snd, List.filter_filter]
+  congr 1; funext e; exact Bool.and_comm _ _
+
+/-- the two `kwargs.pop(..)` in either order leave the same keywords -/
+theorem restKw_swap (kw : Kw) : (pyKwPop (pyKwPop kw KW_EXTS none).2 KW_STUB (some ())).2 = restKw kw := by
+  rw [restKw_eq]
+  simp only [pyKwPop_snd, List.filter_filter]
+
 /-- **`IH5MFRecord.commit_patch(**kw)`** as regenerated from the source is the step sequence `commitMFW` -/
 theorem gen_mf_commit_patch (s : State) (hp : PyRep s.h) (kw : Kw) :
     IH5MFRecord.commit_patch kw (World.ofState s) = commitMFW s kw := by
@@ -154,8 +176,11 @@ theorem gen_mf_commit_patch (s : State) (hp : PyRep s.h) (kw : Kw) :
     have hl1 : lastFile (mfPrep s ubT).h.files = some (f, ubT) := by
       simp only [mfPrep, hsn, setLastUB_snoc]; exact lastFile_append_single _ _
     have hm0 : w0.self.manifest = s.h.manifest := by subst hw0; rfl
-    simp only [restKw, KW_STUB, KW_EXTS] at e3 ⊢
-    simp only [run_bind, run_pure, run_pySelf, run_pyLift, e0, hl, pyMfWithExts, pyExtUpdate, ite_self]
+    have hk1 : restKw kw = restKw kw := rfl
+    have hk2 := restKw_swap kw
+    conv at hk1 => lhs; simp only [restKw, KW_STUB, KW_EXTS]
+    simp only [KW_STUB, KW_EXTS] at hk2
+    simp only [run_bind, run_pure, run_pySelf, run_pyLift, e0, hl, pyMfWithExts, pyExtUpdate, ite_self, hk1, hk2]
     cases hm : s.h.manifest <;>
       simp only [run_bind, run_pure, run_pySelf, run_pyLift, gen_manifest, hm0, hm, Option.isSome_none,
         Option.isSome_some, Bool.false_eq_true, if_false, if_true, e1, hubT, e2, run_tryCatch, e3] <;>
